@@ -149,11 +149,11 @@ SPECS['C16'] = dict(
                            cached='all-subsets', reqs='roots', sample=6000)),
     title='process / thread / memory facts and the filtered context observed inside run()')
 SPECS['C19'] = dict(
-    invs=['A_C19_ExactlyOnce'], props=[], logs=True, jobfn=beh_logs, real_jobfn=beh_logs,
+    invs=['A_C19_ExactlyOnce', 'A_C19_DeliveredBeforeRaise', 'A_C19_NeverTwice'], props=[], logs=True, jobfn=beh_logs, real_jobfn=beh_logs,
     fam=dict(quick=dict(n=3, ntypes=1, maxpars=(UNL,), maxws=(1, 2), backends=('fork', 'spawn', 'serial'),
-                        cached='none', reqs='roots', fails='singles'),
+                        cached='none', reqs='roots', fails='singles', cofs=(True, False)),
              thorough=dict(n=3, ntypes=1, maxpars=(UNL, 1), maxws=(1, 2, 3), backends=('fork', 'spawn', 'serial'),
-                           cached='all-subsets', reqs='subsets', fails='singles', sample=8000)),
+                           cached='all-subsets', reqs='subsets', fails='singles', cofs=(True, False), sample=12000)),
     title='every record / stdout / stderr line of every task delivered exactly once before return')
 
 SIM = {'quick': dict(num=3000, cfg_sample=300, real=64), 'thorough': dict(num=60000, cfg_sample=3000, real=800)}
